@@ -134,6 +134,24 @@ func (m *ResultModifiedRequest) MatchedRule() (id ID, text RuleText) {
 // isResult implements the [Result] interface for *ResultModifiedRequest.
 func (*ResultModifiedRequest) isResult() {}
 
+// CloneForReq returns a result with Msg being a deep clone of req, with a new
+// ID, rewritten to the question name of m.  req must not be nil and must have
+// exactly one question.
+func (m *ResultModifiedRequest) CloneForReq(
+	c *dnsmsg.Cloner,
+	req *dns.Msg,
+) (clone *ResultModifiedRequest) {
+	msg := c.Clone(req)
+	msg.Id = dns.Id()
+	msg.Question[0].Name = m.Msg.Question[0].Name
+
+	return &ResultModifiedRequest{
+		Msg:  msg,
+		List: m.List,
+		Rule: m.Rule,
+	}
+}
+
 // Clone returns a deep clone of m with a new ID.
 func (m *ResultModifiedRequest) Clone(c *dnsmsg.Cloner) (clone *ResultModifiedRequest) {
 	msg := c.Clone(m.Msg)
